@@ -173,7 +173,11 @@ def gen_items(rng, opts, ctxflags, depth=0, maxitems=6, p_unknown=0.0, titles=No
         if o.ty == "sec":
             toks.append(nm)
             if o.flags & TITLE:
-                toks.append(title_token(rng, rng.choice(titles or TITLES)))
+                t = rng.choice(titles or TITLES)
+                if ctxflags & NOCASE and rng.random() < 0.5:
+                    # under case-insensitive names a title that differs in letter case only is the SAME title
+                    t = case_mix(rng, t.decode("latin1")).encode("latin1")
+                toks.append(title_token(rng, t))
             toks.append(b"{")
             if o.flags & KEYSTRVAL:
                 keys = [b"k1", b"k2", b"key", b"K1"]
